@@ -22,7 +22,7 @@ SAFE_RECEIVERS = (str, dict, tuple, list, frozenset)
 SAFE_BUILTINS = {'len': len, 'bool': bool, 'tuple': tuple, 'list': list, 'min': min, 'max': max, 'abs': abs, 'int': int,
                  'isinstance': isinstance, 'str': str, 'ord': ord, 'chr': chr, 'range': range, 'dict': dict,
                  'enumerate': enumerate, 'zip': zip, 'set': set, 'frozenset': frozenset, 'sorted': sorted, 'iter': iter, 'next': next,
-                 'reversed': reversed, 'sum': sum, 'divmod': divmod, 'float': float, 'repr': repr, 'map': map, 'filter': filter}
+                 'reversed': reversed, 'sum': sum, 'divmod': divmod, 'float': float, 'repr': repr, 'map': map, 'filter': filter, 'hash': hash, 'id': id, 'round': round, 'pow': pow, 'bytes': bytes, 'hex': hex, 'bin': bin}
 CATCHABLE = {'KeyError': KeyError, 'IndexError': IndexError, 'ValueError': ValueError, 'TypeError': TypeError,
              'AttributeError': AttributeError, 'Exception': Exception}
 
@@ -182,7 +182,7 @@ class MiniEval:
                     results.append(self.ev(e.elt))
                 return
             g = e.generators[i]
-            for item in list(self.ev(g.iter)):
+            for item in self.iterate(self.ev(g.iter)):
                 self.assign(g.target, item)
                 if all(self.truth(self.ev(c)) for c in g.ifs):
                     rec(i + 1)
@@ -193,6 +193,10 @@ class MiniEval:
         if isinstance(e, ast.SetComp):
             return set(results)
         return results
+
+    def iterate(self, v):
+        """The items a `for` statement / comprehension draws from v."""
+        return list(v)
 
     def truth(self, v):
         if isinstance(v, Sym):
@@ -264,7 +268,7 @@ class MiniEval:
             raise Return(self.ev(st.value) if st.value is not None else None)
         if isinstance(st, ast.For):
             broke = False
-            for item in list(self.ev(st.iter)):
+            for item in self.iterate(self.ev(st.iter)):
                 self.assign(st.target, item)
                 try:
                     self.block(st.body)
